@@ -130,11 +130,11 @@ def oracle_window(size, index, bitfield, ops, toks):
 def run_window(oscore, size, index, bitfield, ops):
     try:
         w = oscore.ReplayWindow(size, lambda: None)
+        w.initialize_from_persisted({"index": index, "bitfield": bitfield})
     except ValueError:
         if size < 1:
-            return "size-refused"                    # a window without slots cannot be configured
+            return "size-refused"                    # a window without slots cannot be configured / loaded
         raise
-    w.initialize_from_persisted({"index": index, "bitfield": bitfield})
     out = []
     for op in ops:
         n = int(op[1:])
@@ -252,10 +252,12 @@ def run_unprotect(aiocoap, oscore, HarnessContext, size, win, echo_recovery, arr
     client, server = make_ctx_pair(oscore, HarnessContext, 32 if size < 1 else size)
     try:
         w = oscore.ReplayWindow(size, lambda: None)
+        if win is not None:
+            w.initialize_from_persisted({"index": win[0], "bitfield": win[1]})
     except ValueError:
-        return "size-refused", []                    # a window without slots cannot be configured: nothing to judge
-    if win is not None:
-        w.initialize_from_persisted({"index": win[0], "bitfield": win[1]})
+        if size < 1:
+            return "size-refused", []                # a window without slots cannot be configured: nothing to judge
+        raise
     server.recipient_replay_window = w
     server.echo_recovery = None if echo_recovery is None else echo_recovery.to_bytes(8, "big")
     out = []
